@@ -766,6 +766,34 @@ func cmdC07(seed uint64, tier, outdir string) {
 		xs = append(xs, input{fmt.Sprintf("nested+notice#%d", len(nestedBC)), []byte(x)})
 		nestedBC = append(nestedBC, nb)
 	}
+	// a partial X that holds exactly threshold * L words of a user-added document of L distinct words and nothing else
+	// (a notice minus its closing sentence): alone it scores exactly the threshold, any size-based shortcut that
+	// looks at the whole input sees a different size once X is embedded
+	for k := 0; k < 4+n/30; k++ {
+		thr, step := 0.8, 5
+		if k%3 == 2 {
+			thr, step = 0.9, 10
+		}
+		L := step * (60/step + r.intn(8))
+		var ws []string
+		for j := 0; j < L; j++ {
+			w := "zw"
+			for v := j + 1 + 26*k; v > 0; v /= 26 {
+				w += string(rune('a' + v%26))
+			}
+			ws = append(ws, w)
+			if j%8 == 7 {
+				ws[len(ws)-1] += "\n"
+			}
+		}
+		keep := int(thr*float64(L) + 0.5)
+		if k%4 == 3 {
+			keep++ // one word more than the boundary
+		}
+		nb := buildCorpus(thr, []corpusDoc{{"License", "Window", "w.txt", []byte(strings.Join(ws, " "))}})
+		xs = append(xs, input{fmt.Sprintf("nested+notice#%d threshold-window %d of %d", len(nestedBC), keep, L), []byte(strings.Join(ws[:keep], " "))})
+		nestedBC = append(nestedBC, nb)
+	}
 	bcFull := bc
 	for _, x := range xs {
 		bc = bcFull
